@@ -210,6 +210,35 @@ fn judge(scn: &SimpScenario, acc: &mut Acc) -> Option<Violation> {
     }
 }
 
+/// a pool of 1-bit expressions only: every operand fits every operator
+fn gen_bool_pool(rng: &mut Rng, n: usize) -> Vec<Call> {
+    use super::c12::Ty;
+    let mut calls = vec![
+        Call::Sym("y".into(), Ty::Bv(1), 0),
+        Call::Sym("z".into(), Ty::Bv(1), 0),
+        Call::Sym("w".into(), Ty::Bv(1), 0),
+        Call::True,
+        Call::False,
+    ];
+    const OPS: &[&str] = &[
+        "and", "or", "xor", "add", "sub", "mul", "implies", "equal", "greater", "greater_or_equal",
+        "shift_left", "shift_right", "arithmetic_shift_right",
+    ];
+    while calls.len() < n.max(8) {
+        let k = calls.len();
+        // prefer recent results: deeper nests
+        let pick = |rng: &mut Rng| if rng.chance(2, 3) { k - 1 - rng.usize_below(k.min(6)) } else { rng.usize_below(k) };
+        let c = match rng.below(10) {
+            0..=2 => Call::Un(if rng.chance(3, 4) { "not" } else { "negate" }, pick(rng)),
+            3 => Call::Ite(pick(rng), pick(rng), pick(rng)),
+            4 => Call::Lit(if rng.bool() { "1".into() } else { "0".into() }, rng.below(9) as u8),
+            _ => Call::Bin(*rng.pick(OPS), pick(rng), pick(rng)),
+        };
+        calls.push(c);
+    }
+    calls
+}
+
 impl Property for C13 {
     fn id(&self) -> &'static str {
         "C13"
@@ -225,7 +254,20 @@ impl Property for C13 {
         let mut rng = Rng::stream(run_seed, "workload");
         // K clients own batches from one pool; pool members are built in between requests
         let n_build = rng.range(15, 90) as usize;
-        let pool_calls = gen_program(&mut rng, n_build, false);
+        // pool flavours: general (all widths), narrow (mostly 1..4 bits), Boolean-only (deep
+        // 1-bit nests, where rewrite chains are longest and rules interact most)
+        let flavour = rng.below(3);
+        let pool_calls = match flavour {
+            0 => gen_program(&mut rng, n_build, false),
+            1 => {
+                super::c12::set_narrow_widths(true);
+                let p = gen_program(&mut rng, n_build, false);
+                super::c12::set_narrow_widths(false);
+                p
+            }
+            _ => gen_bool_pool(&mut rng, n_build),
+        };
+        acc.count(["pool.general", "pool.narrow", "pool.boolean"][flavour as usize], 1);
         let k = rng.range(2, 4) as usize;
         let mut srng = Rng::stream(run_seed, "sched");
         // each client's batch: a random subset of the pool (requests can only name members that
@@ -233,7 +275,7 @@ impl Property for C13 {
         let mut batches: Vec<Vec<usize>> = (0..k).map(|_| vec![]).collect();
         for i in 0..pool_calls.len() {
             for b in batches.iter_mut() {
-                if srng.chance(1, 3) {
+                if srng.chance(1, 2) {
                     b.push(i);
                 }
             }
